@@ -39,6 +39,6 @@ table = '\n'.join(['| seeded change | confirmed | own check | also reported by |
 p = os.path.join(VERIF, 'DESIGN.md')
 s = open(p).read()
 s = re.sub(r'<!-- SEEDED-TABLE-BEGIN -->.*?<!-- SEEDED-TABLE-END -->',
-           '<!-- SEEDED-TABLE-BEGIN -->\n' + table + '\n<!-- SEEDED-TABLE-END -->', s, flags=re.S)
+           lambda m_: '<!-- SEEDED-TABLE-BEGIN -->\n' + table + '\n<!-- SEEDED-TABLE-END -->', s, flags=re.S)   # (no escape processing)
 open(p, 'w').write(s)
 print(len(rows), 'rows')
